@@ -5,9 +5,9 @@ Bounded-exhaustive enumeration (no sampling) of
   modifier stacks   all sequences (repetition allowed) over
                     {dagger, control(c), control(ca, cb), control(cs) with
                      cs: array[qubit, 2], power(2), power(n) with n: nat}
-                    of length <= 3 (quick; length 3 only with the bodies h(q) and
-                    rz(q, angle(a))) / <= 4 (thorough); every stack position has its
-                    own control qubits
+                    of length <= 3 (quick) / <= 4 (thorough); the longest length of a
+                    tier only with the bodies h(q) and rz(q, angle(a)); every stack
+                    position has its own control qubits
   layout            one `with a, b, c:` item list and fully nested `with` blocks
                     (thorough, length <= 3: every split of the stack into nested groups)
   bodies            h(q) | cx(q, r) | rz(q, angle(a)) with a captured float |
@@ -96,7 +96,7 @@ def all_items(quick):
         for stack in itertools.product(ALPHABET, repeat=k):
             for comp in comps:
                 for body in BODIES:
-                    if quick and k == 3 and body not in ("B1", "B3"):
+                    if k == (3 if quick else 4) and body not in ("B1", "B3"):
                         continue
                     items.append({"stack": list(stack), "comp": comp, "body": body})
     return items
